@@ -1193,9 +1193,24 @@ def b_scale_pairs(tier, rnd):
                         cases.append((a(tonic_for(a, i), oa), b(tonic_for(b, i), ob)))
                     except Exception:
                         pass
+    # Diatonic scales whose semitone positions are written in different ways (tuple, list, other order, repeated): equal
+    # exactly when their note lists are
+    for tonic in ("C", "F#", "Eb"):
+        forms = [(3, 7), (7, 3), [3, 7], (3, 7, 3), (2, 6), (1, 5)]
+        objs = []
+        for f in forms:
+            try:
+                objs.append(S.Diatonic(tonic, f))
+            except Exception:
+                pass
+        objs.append(S.Ionian(tonic))
+        for a in objs:
+            for b in objs:
+                cases.append((a, b))
     return {"rule": "every ordered pair of the 17 scale classes on 4 related tonics x octave counts (1,1) (1,2) (2,2): "
                     "same class, relatives, and the classes that share one of their two lists (melodic minor / Bachian / "
-                    "natural minor)", "cases": cases}
+                    "natural minor); Diatonic scales with the semitone positions written in 6 ways (+ Ionian) on 3 tonics",
+            "cases": cases}
 
 
 @battery("midifile")
